@@ -221,7 +221,8 @@ MANIFEST = {
             "above every leaf are determined by the leaf's raw path alone, the slot at prefix P holding the last registered group with "
             "key P, and group insertion changes nothing else (C12_groups_attach); hence what runs is, as a multiset, what the entries say "
             "one by one (C12_registered_cases), every case exactly once under --include-ignored (C12_all_run_once), independently of "
-            "registration order when group keys are distinct (C12_order_independent), and equal to the intended flat semantics under the "
+            "registration order when group keys are distinct (C12_order_independent; the built tree itself is then equal up to sibling "
+            "order, C12_order_independent_tree), the --list view is the flat listing (C12_list_view), and the run is equal to the intended flat semantics under the "
             "no-name-clash guard (C12_flat_semantics); macro level: nothing for exclusively empty lists, one "
             "entry per function, exactly the types x consts product for generic ones, external consts 1..20 (C12_expand_*). Without the "
             "key guard the property fails in divan: C12_name_clash_refuted (finding F8). Correspondence: synthetic registries in random "
